@@ -168,7 +168,7 @@ fn short(o: &Obs) -> String {
 
 fn make_case(ctx: &mut Ctx) -> Option<(Rc<Vec<u8>>, Vec<Query>, String)> {
     let enc = Enc::ALL[ctx.rng.usize_below(4)];
-    let mut o = GenOpts::standard();
+    let mut o = GenOpts::unmodelled();
     o.max_syms = 5;
     o.density = 5;
     o.weird_views = ctx.rng.bool();
